@@ -13,6 +13,7 @@ mod c17;
 mod c18i;
 mod c18m;
 mod c18p;
+mod conv;
 mod hidden;
 mod ops;
 mod report;
@@ -54,11 +55,15 @@ fn main() {
         }
         "c17" => {
             c17::set_no_fmt(args.flag("no-fmt"));
-            let s = c17::run(seed, args.usize("histories", 2000), workers, !args.flag("no-faults"), args.str("types"));
+            let s = c17::run(seed, args.usize("histories", 2000), workers, !args.flag("no-faults"), args.str("types"), !args.flag("no-grid"));
             report::write_out(out, &s.to_json("C17", seed));
         }
         "c18i" => {
             let s = c18i::run(seed, args.usize("samples", 200), workers);
+            report::write_out(out, &s.to_json("C18", seed));
+        }
+        "conv" => {
+            let s = conv::run(seed, args.usize("rounds", 50));
             report::write_out(out, &s.to_json("C18", seed));
         }
         "c18p" => {
@@ -97,6 +102,7 @@ fn main() {
                 "C17" => c17::replay(&j),
                 "C18" if j["part"].as_str() == Some("P") => c18p::replay(&j),
                 "C18" if j["part"].as_str() == Some("I") => c18i::replay(&j),
+                "C18" if j["part"].as_str() == Some("conv") && j.get("rounds").is_some() => conv::replay(&j),
                 "C18" if j["part"].as_str() == Some("M") => {
                     arena::install_crash_monitor();
                     c18m::replay(&j)
